@@ -46,7 +46,13 @@ impl Distribution for Pareto {
     type Output = f64;
     /// Samples from the given Pareto distribution using inverse transform sampling.
     fn sample(&self) -> f64 {
-        let u = alea::f64();
+        // a uniform draw of exactly 0 would divide by zero: draw again
+        let u = loop {
+            let u = alea::f64();
+            if u > 0. {
+                break u;
+            }
+        };
         self.minval / u.powf(1. / self.alpha)
     }
 }
